@@ -77,7 +77,7 @@ func runC02Conc(c c02Conc, ev *Ev) error {
 		got := 0
 		deadline := time.Now().Add(5 * time.Second)
 		for got < n && time.Now().Before(deadline) {
-			d, err := p.Recv(200 * time.Millisecond)
+			d, err := p.RecvFresh(200 * time.Millisecond)
 			if err != nil {
 				continue
 			}
@@ -109,7 +109,7 @@ func runC02Conc(c c02Conc, ev *Ev) error {
 			return fmt.Errorf("burst %d: %d of %d Heartbeat Requests sent back to back were never answered (agent heartbeats every %d ms)", bi, missing, n, c.HBMs)
 		}
 		// nothing more may come
-		if d, err := p.Recv(5 * time.Millisecond); err == nil {
+		if d, err := p.RecvFresh(5 * time.Millisecond); err == nil {
 			return fmt.Errorf("burst %d: surplus datagram %x after all %d requests were answered", bi, d.B, n)
 		}
 	}
